@@ -158,6 +158,8 @@ type RunCtx struct {
 	start   time.Time
 	logMu   sync.Mutex
 	cleanup []func()
+	ended   bool
+	endedAt time.Duration
 }
 
 func (rc *RunCtx) Probe(name string)           { rc.probes[name]++ }
@@ -167,7 +169,12 @@ func (rc *RunCtx) Fault(name string)           { rc.faults[name]++ }
 // Logf appends to the run's event log (hashed into Result.Digest; dumped on failure).
 func (rc *RunCtx) Logf(format string, a ...interface{}) {
 	rc.logMu.Lock()
-	fmt.Fprintf(&rc.log, "%10.6f ", time.Since(rc.start).Seconds())
+	if rc.ended {
+		// after the bubble only the real clock is left: keep the log a function of the seed
+		fmt.Fprintf(&rc.log, "%10.6f ", rc.endedAt.Seconds())
+	} else {
+		fmt.Fprintf(&rc.log, "%10.6f ", time.Since(rc.start).Seconds())
+	}
 	line := fmt.Sprintf(format, a...)
 	if rc.Dir != "" && strings.Contains(line, rc.Dir) {
 		line = strings.ReplaceAll(line, rc.Dir, "$DIR") // keep the log (and its digest) independent of the process id
@@ -389,6 +396,7 @@ func runOne(world, prop string, seed uint64, rp *Replay) *Result {
 		inner()
 	}
 	close(done)
+	rc.ended, rc.endedAt = true, simElapsed
 	simrt.Install(nil)
 	simnet.Install(nil)
 	simos.Install(nil)
